@@ -110,6 +110,15 @@ CHECKS = {
         ref="10/C17",
         note="no viewer/PDF; DOT reader validated against the recorded graphviz calls on every case",
     ),
+    "C15": dict(
+        cat="exploration",
+        technique="write-read(-write-read) histories through the real to_dict/to_yaml/from_dict/from_yaml at every quiescent point, compared by a harness-owned structural equality",
+        text="The flat input and the hierarchy after every stage are serialised and re-read through "
+             "both formats; the re-read graph must be structurally equal and re-serialise to the "
+             "same dictionary (chains of up to 3 rounds).",
+        ref="10/C15",
+        note="AST-payload graphs are outside the statement's enumeration; names as front ends and generator produce them",
+    ),
 }
 
 NOT_APPLICABLE = {}
